@@ -287,3 +287,49 @@ def build_with(passes_fn, npasses, isubst, ipos, classes, dirn=0, gattr=None, up
 
 def gen_text(r, maxlen=12):
     return [r.randrange(0x61, 0x6a) if r.random() < 0.95 else r.choice([0x20, 0x7a, 0x41]) for _ in range(r.randrange(0, maxlen + 1))]
+
+
+def gen_loop_font(r):
+    """a font whose state machine loops: `a+ b` with a self-loop on column 0, so that long runs of one glyph drive the walk to
+    the slot-map limit (MAX_SLOTS); the rule itself is `a b` with a random action"""
+    ncols = 2
+    cols = [(g, g, (g - 1) % ncols) for g in range(1, NG)]
+    act, kinds = gen_action_ext(r, 0, 2, ("next", "insert", "delete", "put_glyph", "assoc"))
+    rules = [(2, 0, b'', bytes(act), (0, 1), kinds)]
+    trans = [[1, 0], [1, 2]]          # state 0: a -> 1 ; state 1: a -> 1 (loop), b -> 2 (success)
+    ml = r.choice([1, 3, 5])
+
+    def passes_fn(i, base):
+        return mk_pass([ru[:4] for ru in rules], ncols, cols, trans, 3, 2, 1, [[0]], [0], 0, 0, base, maxloop=ml)
+    gattr = [[0, 0, 0, 0] for _ in range(NG)]
+    data = build_with(passes_fn, 1, 0, 1, CLASSES, dirn=0, gattr=gattr)
+    colarr = [0xFFFF] + [(g - 1) % ncols for g in range(1, NG)]
+    pm = "/".join(["%d,0,0,%d,2,3,1" % (ml, ncols), ",".join(map(str, colarr)), "0", "1,0;1,2", "0", "2,0,-,%s" % bytes(act).hex(), "0.1"])
+    model = "ipos=1 classes=%s gattr=%s passes=%s" % (";".join(".".join(map(str, c)) for c in CLASSES), ";".join(".".join(map(str, g)) for g in gattr), pm)
+    return data, {"model": model, "passes": 1, "ipos": 1, "dir": 0, "rules": [[{"kinds": kinds}]]}
+
+
+def gen_boundary_font(r):
+    """a font that the loader must refuse: one action or constraint names a table entry exactly one past the end of its table
+    (class number = number of classes, glyph attribute = number of attributes, a feature although the font has none)"""
+    kind = r.choice(["class", "class_subs", "gattr", "feat"])
+    ncols = 3
+    cols = [(g, g, (g - 1) % ncols) for g in range(1, NG)]
+    if kind == "class":
+        act = bytes([OP['PUT_GLYPH'], 0, NCLASSES, OP['NEXT'], OP['RET_ZERO']])
+        con = b''
+    elif kind == "class_subs":
+        act = bytes([OP['PUT_SUBS'], 0, 0, r.choice([0, NCLASSES]), 0, NCLASSES, OP['NEXT'], OP['RET_ZERO']])
+        con = b''
+    elif kind == "gattr":
+        act = bytes([OP['NEXT'], OP['RET_ZERO']])
+        con = bytes([OP['PUSH_GLYPH_ATTR_OBS'], NATTR, 0, OP['POP_RET']])
+    else:
+        act = bytes([OP['NEXT'], OP['RET_ZERO']])
+        con = bytes([43, 0, 0, OP['POP_RET']])          # PUSH_FEAT feature 0 of a font without features
+    rules = [(1, 0, con, act, (r.randrange(ncols),), [kind])]
+    trans, nst, ntr, nsu, rm = trie_fsm([ru[4] for ru in rules], ncols)
+
+    def passes_fn(i, base):
+        return mk_pass([ru[:4] for ru in rules], ncols, cols, trans, nst, ntr, nsu, rm, [0], 0, 0, base, maxloop=3)
+    return build_with(passes_fn, 1, 0, 1, CLASSES, dirn=0), {"kind": kind}
